@@ -131,23 +131,33 @@ class ValueMap(object):
 
 # Base directories the tile histories are replayed in.  A tile file is a function of position and format only (Mask.tla does
 # not model the directory), so every history must come out the same whatever the pyramid directory is called: names with
-# glob / regex / format metacharacters, spaces, dots, a leading dash, non-ASCII, nested; absolute, relative, trailing slash.
+# glob / regex / format metacharacters, spaces, dots, a leading dash, non-ASCII, nested; absolute, relative, trailing slash;
+# already on disk or not yet there (also two levels below what exists) when the PyramidIO is constructed.
 DIR_NAMES = ["tiles", "survey[dr2]", "M31 [v2] tiles", "a*b?c", "{x,y} 100%s %d", "-leading-dash", "v1.2.npy.d",
              "\u00fcn\u00ef-c\u00f8d\u00e9-\u76ee\u5f55", os.path.join("lvl[0-9]", "sub dir"), "[!a]tiles[]]"]
 DIR_STYLES = ["absolute", "relative", "trailing-slash"]
 SIB_FORMAT = {"npy": "png", "png": "npy", "fits": "npy"}       # the second format a directory may hold the position in
 
 
+DIR_EXISTENCE = ["exists", "not yet there", "exists", "not yet there, two levels deep"]
+
+
 def pyramid_dir(root, tag, gi):
-    """the gi-th base directory: name and spelling rotate independently"""
+    """the gi-th base directory: name, spelling and whether it exists when the PyramidIO is constructed rotate independently"""
     name, style = DIR_NAMES[gi % len(DIR_NAMES)], DIR_STYLES[gi % len(DIR_STYLES)]
+    there = DIR_EXISTENCE[gi % len(DIR_EXISTENCE)]
     d = os.path.join(root, tag, name)
-    os.makedirs(d, exist_ok=True)
+    if there == "exists":
+        os.makedirs(d, exist_ok=True)
+    else:
+        os.makedirs(os.path.join(root, tag), exist_ok=True)      # a brand-new pyramid: toasty creates the directories itself
+        if there != "not yet there":
+            d = os.path.join(d, "new", name)
     if style == "relative":
         d = os.path.relpath(d)
     elif style == "trailing-slash":
         d = d + os.sep
-    return d, "%s (%s)" % (name, style)
+    return d, "%s (%s, %s)" % (name, style, there)
 
 
 def decode(code, n, base):
